@@ -20,6 +20,7 @@ import sys
 import concurrent.futures
 
 from vlib import common as C
+from tools import k2v, k2v_locks
 
 PID = "C19"
 UNIT = "locks"
@@ -27,21 +28,21 @@ UNIT = "locks"
 PINNED = [
     "single_section_linearizable", "stress_ops_linearizable", "one_lock_no_deadlock", "no_wait_for_cycle",
     "self_alias_blocks", "self_alias_panics_rc", "footprint_table", "is_single_sound", "is_flat_sound",
-    "table_scripts_no_deadlock", "ops_match_table",
+    "table_scripts_no_deadlock", "ops_match_table", "borrow_pins_match", "borrow_pins_consistent",
     "index_not_atomic_refuted", "insert_not_atomic_refuted", "remove_not_atomic_refuted",
-    "update_lost_update_refuted", "update_unwrap_refuted", "extend_self_blocks_arc", "extend_self_panics_rc",
+    "update_lost_update_refuted", "extend_self_blocks_arc", "extend_self_panics_rc",
     "recursive_read_deadlocks_when_fair",
 ]
 # Examples are pinned by name only (no Print Assumptions line for them)
-PINNED_THEOREMS = PINNED[:11]
+PINNED_THEOREMS = PINNED[:13]
 
 KNOWN = {
     "C19a": "C19a check-then-act in two critical sections: `l[i]`, `l[a..b]`, list.insert, list.remove (and list.retain "
             "with a function) validate the index under one data() guard and use it under a later guard; a concurrent "
             "pop/remove/clear in between makes the runtime PANIC (vm.rs run_index `l.data()[index]`, Vec::insert / "
             "Vec::remove asserts) instead of raising a koto error",
-    "C19b": "C19b map.update is contains_key / insert default / get().unwrap() / call f / insert in separate critical "
-            "sections: concurrent updates of one key lose increments, and a concurrent remove makes the unwrap panic",
+    "C19b": "C19b map.update is get / insert default / call f / insert in separate critical sections: concurrent updates "
+            "of one key lose increments",
     "C19c": "C19c recursive shared acquisition of ONE container (`l + l`, `l == l`, `m == m`): parking_lot's task-fair "
             "RwLock parks the second read() behind a waiting writer -> deadlock with any concurrent writer",
     "C19d": "C19d receiver and argument the same container under an exclusive guard (`l.extend l`, `m.extend m`, "
@@ -51,11 +52,12 @@ KNOWN = {
 # ---------------------------------------------------------------------------------------------
 # the Python mirror of coq/locks/LocksOps.v (section bodies) — validated against Coq on every run
 
-LIST_SINGLE = ["push", "pop", "size", "get", "first", "last", "contains", "clear", "set", "extend"]
+LIST_SINGLE = ["push", "pop", "size", "get", "first", "last", "contains", "clear", "set", "extend", "extend",
+               "resize", "fill", "reverse", "sort", "retain"]
 LIST_MULTI = ["index", "insert", "remove"]
-MAP_SINGLE = ["minsert", "mremove", "mget", "mcontains", "msize", "mclear", "mgetindex"]
+MAP_SINGLE = ["minsert", "mremove", "mget", "mcontains", "msize", "mclear", "mgetindex", "mextend", "mextend", "msort"]
 MAP_MULTI = ["mupdate"]
-RETURNS_SELF = {"push", "clear", "extend", "insert", "mclear"}
+RETURNS_SELF = {"push", "clear", "extend", "insert", "mclear", "resize", "fill", "reverse", "sort", "retain", "mextend", "msort"}
 
 N_, I_, B_, P_, SELF, ERR, PANIC = "n", "i", "b", "p", "self", "err", "panic"
 
@@ -125,6 +127,26 @@ def step(op, stage, aux, st):
         return st, ("ret", (ERR,))
     if k == "extend":
         return st + tuple(op[1]), ("ret", (SELF,))
+    if k == "resize":
+        n, v = op[1], op[2]
+        if n < 0:
+            return st, ("ret", (ERR,))
+        return st[:n] + (v,) * (n - len(st)), ("ret", (SELF,))
+    if k == "fill":
+        return (op[1],) * len(st), ("ret", (SELF,))
+    if k == "reverse":
+        return st[::-1], ("ret", (SELF,))
+    if k == "sort":
+        return tuple(sorted(st)), ("ret", (SELF,))
+    if k == "retain":
+        return tuple(x for x in st if x == op[1]), ("ret", (SELF,))
+    if k == "mextend":
+        m = st
+        for kk, vv in op[1]:
+            m = m_insert(m, kk, vv)
+        return m, ("ret", (SELF,))
+    if k == "msort":
+        return tuple(sorted(st, key=lambda kv: kv[0])), ("ret", (SELF,))
     if k == "index":
         i = op[1]
         if stage == 0:
@@ -173,15 +195,13 @@ def step(op, stage, aux, st):
         return st, ("ret", (P_, st[i][0], st[i][1]))
     if k == "mupdate":
         key, d = op[1], op[2]
-        if stage == 0:      # contains_key?
-            return st, ("cont", 2 if m_get(st, key) is not None else 1, None)
-        if stage == 1:      # insert default
-            return m_insert(st, key, 0), ("cont", 2, None)
-        if stage == 2:      # get().unwrap()
+        if stage == 0:      # map.get
             x = m_get(st, key)
             if x is None:
-                return st, ("ret", (PANIC,))
-            return st, ("cont", 3, x)
+                return st, ("cont", 1, None)
+            return st, ("cont", 2, x)
+        if stage == 1:      # insert default
+            return m_insert(st, key, 0), ("cont", 2, 0)
         return m_insert(st, key, aux + d), ("ret", (I_, aux + d))
     raise ValueError(op)
 
@@ -238,7 +258,15 @@ def coq_op(op):
             "remove": "ORemove", "minsert": "MInsert", "mremove": "MRemove", "mget": "MGet", "mcontains": "MContains",
             "msize": "MSize", "mclear": "MClear", "mgetindex": "MGetIndex", "mupdate": "MUpdate"}.get(k)
     if k == "extend":
-        return "(OExtend [" + "; ".join(z(v) for v in op[1]) + "])"
+        ctor = "OExtend" if op[2] in ("tuple", "list") else "OExtendGen"
+        return f"({ctor} [" + "; ".join(z(v) for v in op[1]) + "])"
+    if k == "mextend":
+        return "(MExtendGen [" + "; ".join(f"({z(a)}, {z(b)})" for a, b in op[1]) + "])"
+    if k in ("resize", "fill", "reverse", "sort", "retain", "msort"):
+        name = {"resize": "OResize", "fill": "OFill", "reverse": "OReverse", "sort": "OSort", "retain": "ORetainVal",
+                "msort": "MSort"}[k]
+        args = " ".join(z(a) for a in op[1:])
+        return f"({name} {args})" if args else name
     args = " ".join(z(a) for a in op[1:])
     return f"({name} {args})" if args else name
 
@@ -277,8 +305,33 @@ def koto_src(op):
         return f"shared[{op[1]}] = {op[2]}"
     if k == "extend":
         body = ", ".join(str(v) for v in op[1])
-        # a tuple (L_extend_tuple) or a fresh list nobody else can reach (L_extend_list, private argument)
-        return f"shared.extend(({body},))" if op[2] == "tuple" else f"shared.extend([{body}])"
+        a, b = op[1][0], op[1][-1] + 1
+        # a tuple (L_extend_tuple), a fresh list nobody else can reach (L_extend_list, private argument), or the
+        # generic-iterable arm (L_extend_gen): range, adaptor chain, generator (payloads are consecutive)
+        return {"tuple": f"shared.extend(({body},))", "list": f"shared.extend([{body}])",
+                "range": f"shared.extend({a}..{b})", "chain": f"shared.extend(({a}..{b}).each |x| x)",
+                "chain2": f"shared.extend(({a - 1}..{b - 1}).keep(|x| true).each(|x| x + 1))",
+                "gen": f"g = ||\n  for x in {a}..{b}\n    yield x\nshared.extend(g())"}[op[2]]
+    if k == "mextend":
+        kvs = op[1]
+        k0, v0 = kvs[0]
+        n = len(kvs)
+        pairs = ", ".join(f"({a}, {b})" for a, b in kvs)
+        return {"pairs": f"shared.extend([{pairs}])",
+                "tuples": f"shared.extend(({pairs},))",
+                "map": "m = {}\n" + "".join(f"m.insert({a}, {b})\n" for a, b in kvs) + "shared.extend(m)",
+                "chain": f"shared.extend((0..{n}).each |j| ({k0} + j, {v0} + j))",
+                "gen": f"g = ||\n  for j in 0..{n}\n    yield ({k0} + j, {v0} + j)\nshared.extend(g())"}[op[2]]
+    if k == "resize":
+        return f"shared.resize({op[1]}, {op[2]})"
+    if k == "fill":
+        return f"shared.fill({op[1]})"
+    if k == "reverse":
+        return "shared.reverse()"
+    if k in ("sort", "msort"):
+        return "shared.sort()"
+    if k == "retain":
+        return f"shared.retain({op[1]})"
     if k == "index":
         return f"shared[{op[1]}]"
     if k == "insert":
@@ -430,9 +483,22 @@ def gen_ops(rng, kind, pool, n_ops, tid, ctr, size_hint):
         elif k in ("set", "insert"):
             ops.append((k, small, v))
         elif k == "extend":
-            ctr[0] += 1
-            vs = (v, v + 1) if rng.chance(1, 2) else (v,)
-            ops.append((k, vs, rng.choice(["tuple", "list"])))
+            n = 1 + rng.below(3)
+            ctr[0] += n
+            ops.append((k, tuple(v + j for j in range(n)), rng.choice(["tuple", "list", "range", "chain", "chain2", "gen"])))
+        elif k in ("reverse", "sort", "msort"):
+            ops.append((k,))
+        elif k == "fill":
+            ops.append((k, v))
+        elif k == "resize":
+            ops.append((k, rng.below(size_hint + 3) - (1 if rng.chance(1, 10) else 0), v))
+        elif k == "retain":
+            ops.append((k, rng.choice([1, 2, 3, v])))
+        elif k == "mextend":
+            n = 1 + rng.below(3)
+            k0 = 1 + rng.below(4)
+            ctr[0] += n
+            ops.append((k, tuple((k0 + j, v + j) for j in range(n)), rng.choice(["pairs", "tuples", "map", "chain", "gen"])))
         elif k == "minsert":
             ops.append((k, 1 + rng.below(4), v))
         elif k in ("mremove", "mget", "mcontains"):
@@ -459,7 +525,7 @@ def gen_history_case(rng, kind, multi):
 
 
 def hammer_cases(tier):
-    n = 60000 if tier == "quick" else 400000
+    n = 40000 if tier == "quick" else 400000
     toggle = f"for i in 0..{n}\n  shared.push(i)\n  shared.pop()\n0"
 
     def tr(body):
@@ -640,6 +706,218 @@ FAMILIES = ["arith", "containers", "closures", "iterators", "strings", "errors"]
 
 
 # ---------------------------------------------------------------------------------------------
+
+# ---- compound operations must be atomic: whole blocks only ------------------------------------
+# Writers repeat ONE multi-element library operation with a recognisable block (K values tagged per
+# writer); one-shot snapshot readers on other runtimes must only ever see whole blocks, and the final
+# container must be a concatenation of whole blocks (two concurrent writers do not interleave).
+
+BLOCK_K = 8
+
+
+def split_top(body):
+    """split the inside of L[...] / M{...} / T(...) at top-level commas"""
+    out, depth, cur, in_str = [], 0, "", False
+    for ch in body:
+        if in_str:
+            cur += ch
+            if ch == '"':
+                in_str = False
+            continue
+        if ch == '"':
+            in_str = True
+        if ch in "([{":
+            depth += 1
+        elif ch in ")]}":
+            depth -= 1
+        if ch == "," and depth == 0:
+            out.append(cur)
+            cur = ""
+        else:
+            cur += ch
+    if cur:
+        out.append(cur)
+    return out
+
+
+def list_block(kind, w):
+    """(koto setup lines, koto argument expression, canonical elements) of writer w's block"""
+    K = BLOCK_K
+    a = (w + 1) * 100
+    ints = [f"i{a + j}" for j in range(K)]
+    body = ", ".join(str(a + j) for j in range(K))
+    if kind == "list":
+        return [], f"[{body}]", ints
+    if kind == "tuple":
+        return [], f"({body},)", ints
+    if kind == "range":
+        return [], f"{a}..{a + K}", ints
+    if kind == "chain":
+        return [], f"({a}..{a + K}).each |x| x", ints
+    if kind == "chain2":
+        return [], f"(0..{2 * K}).keep(|x| x % 2 == 0).each(|x| {a} + x / 2).each(|x| x.to_int())", ints
+    if kind == "generator":
+        return [f"g = ||", f"  for x in {a}..{a + K}", "    yield x"], "g()", ints
+    if kind == "string":
+        chars = "abcdefgh" if w % 2 == 0 else "ABCDEFGH"
+        return [], f"'{chars}'", [f's"{c}"' for c in chars]
+    if kind == "map":
+        return [f"arg = {{}}"] + [f"arg.insert('w{w}k{j}', {j})" for j in range(K)], "arg", [f'T(s"w{w}k{j}",i{j})' for j in range(K)]
+    if kind == "map-values":
+        return [f"arg = {{}}"] + [f"arg.insert('k{j}', {a + j})" for j in range(K)], "arg.values()", ints
+    raise ValueError(kind)
+
+
+def map_block_expr(kind, w):
+    """koto (setup, expression in i) producing K fresh keys base(w, i) .. +K with value j"""
+    K = BLOCK_K
+    base = f"({(w + 1) * 1000000} + i * {K})"
+    if kind == "pairs":
+        return [], "[" + ", ".join(f"({base} + {j}, {j})" for j in range(K)) + "]"
+    if kind == "tuples":
+        return [], "(" + ", ".join(f"({base} + {j}, {j})" for j in range(K)) + ",)"
+    if kind == "chain":
+        return [], f"(0..{K}).each |j| ({base} + j, j)"
+    if kind == "generator":
+        return ["g = |b|", f"  for j in 0..{K}", "    yield (b + j, j)"], f"g({base})"
+    if kind == "map":
+        return ["mk = |b|", "  m = {}", f"  for j in 0..{K}", "    m.insert(b + j, j)", "  m"], f"mk({base})"
+    raise ValueError(kind)
+
+
+def loop_script(setup, n, body_lines, clear_every=None):
+    lines = list(setup) + [f"for i in 0..{n}"] + ["  " + l for l in body_lines]
+    if clear_every:
+        lines += [f"  if i % {clear_every} == {clear_every - 1}", "    shared.clear()"]
+    lines.append("0")
+    return "\n".join(lines)
+
+
+def reader_script(n, snap, bad_cond):
+    """one-shot snapshot `t`, judged inside the reader; the first bad snapshot is the script's result"""
+    return "\n".join(["bad = null", f"for i in 0..{n}", f"  t = {snap}", f"  if {bad_cond}", "    bad = t", "    break", "bad"])
+
+
+def block_cases(tier):
+    quick = tier == "quick"
+    W = 4800 if quick else 24000         # operations per writer
+    R = 20000 if quick else 100000       # snapshots per reader
+    K = BLOCK_K
+    cases = []
+
+    def add(name, kind, init, writers, readers, final_check, timeout_ms=60000):
+        cases.append({"name": name, "final_check": final_check, "writers": len(writers),
+                      "case": {"kind": kind, "init": init, "threads": [[w] for w in writers] + [[r] for r in readers],
+                               "timeout_ms": timeout_ms, "abort_after_deadlocks": 1000}})
+
+    size_bad = f"(size t) % {K} != 0"
+    for kind in ("list", "tuple", "range", "chain", "chain2", "generator", "string", "map", "map-values"):
+        # (i) one or two writers against snapshot readers (the list is cleared now and then to stay short)
+        ws = []
+        for w in range(2):
+            setup, expr, _ = list_block(kind, w)
+            ws.append(loop_script(setup, W, [f"shared.extend({expr})"], clear_every=12))
+        add(f"list.extend({kind}) x readers", "list", [], ws,
+            [reader_script(R, "shared.to_tuple()", size_bad), reader_script(R, "koto.copy(shared)", size_bad),
+             reader_script(R, "size shared", f"t % {K} != 0")], ["blocks", [list_block(kind, w)[2] for w in range(2)], True])
+        # (ii) three writers, nothing removed: the final list is a concatenation of whole blocks
+        ws = []
+        for w in range(3):
+            setup, expr, _ = list_block(kind, w)
+            ws.append(loop_script(setup, W // 4, [f"shared.extend({expr})"]))
+        add(f"list.extend({kind}) x writers", "list", [], ws, [], ["blocks", [list_block(kind, w)[2] for w in range(3)], False])
+    for kind in ("pairs", "tuples", "chain", "generator", "map"):
+        ws = []
+        for w in range(2):
+            setup, expr = map_block_expr(kind, w)
+            ws.append(loop_script(setup, W, [f"shared.extend({expr})"], clear_every=12))
+        add(f"map.extend({kind}) x readers", "map", [], ws,
+            [reader_script(R, "size shared", f"t % {K} != 0"), reader_script(R, "koto.copy(shared)", size_bad),
+             reader_script(R, "shared.keys().to_tuple()", "false")], ["mapblocks", True])
+        ws = []
+        for w in range(3):
+            setup, expr = map_block_expr(kind, w)
+            ws.append(loop_script(setup, W // 4, [f"shared.extend({expr})"]))
+        add(f"map.extend({kind}) x writers", "map", [], ws, [], ["mapblocks", False])
+    # resize: the size only ever jumps between multiples of K
+    add("list.resize x readers", "list", [],
+        [loop_script([], W, [f"shared.resize({K} * (1 + i % 5), {w})"]) for w in range(2)],
+        [reader_script(R, "shared.to_tuple()", size_bad), reader_script(R, "size shared", f"t % {K} != 0")], ["sizemod"])
+    # fill: every snapshot is constant
+    n = 64
+    add("list.fill x readers", "list", [0] * n,
+        [loop_script([], W, [f"shared.fill(i * 2 + {w})"]) for w in range(2)],
+        [reader_script(R, "shared.to_tuple()", f"t[0] != t[{n - 1}] or t[0] != t[{n // 2}] or t[1] != t[{n - 2}]")], ["constant"])
+    # sort / reverse: every snapshot is ascending or descending
+    asc = f"(t[0] == 0 and t[1] == 1 and t[{n // 2}] == {n // 2} and t[{n - 1}] == {n - 1})"
+    desc = f"(t[0] == {n - 1} and t[1] == {n - 2} and t[{n // 2}] == {n - 1 - n // 2} and t[{n - 1}] == 0)"
+    add("list.sort/reverse x readers", "list", list(range(n)),
+        [loop_script([], W, ["shared.reverse()"]), loop_script([], W, ["shared.sort()"])],
+        [reader_script(R, "shared.to_tuple()", f"not ({asc} or {desc})")], ["monotone", n])
+    # retain value: blocks are K copies of one tag, so retain removes whole blocks
+    add("list.retain(value) x readers", "list", [],
+        [loop_script([], W, [f"shared.extend(({', '.join(['1'] * K)},))" if True else "", f"shared.extend(({', '.join(['2'] * K)},))"], clear_every=12),
+         loop_script([], W, ["shared.retain(1)"])],
+        [reader_script(R, "shared.to_tuple()", size_bad), reader_script(R, "size shared", f"t % {K} != 0")], ["sizemod"])
+    # map.sort / map.clear against snapshot readers: sizes stay multiples of K, keys of a snapshot are whole blocks
+    setup, expr = map_block_expr("pairs", 0)
+    add("map.sort+clear x readers", "map", [],
+        [loop_script(setup, W, [f"shared.extend({expr})"], clear_every=12), loop_script([], W, ["shared.sort()"])],
+        [reader_script(R, "size shared", f"t % {K} != 0")], ["mapblocks", True])
+    return cases
+
+
+def judge_block(bc, run):
+    """None or a description of the torn / interleaved observation"""
+    K = BLOCK_K
+    if run["deadlock"]:
+        return f"deadlock (watchdog), progress {run['progress']}"
+    nw = bc["writers"]
+    for t, ops in enumerate(run["threads"]):
+        o = ops[0]
+        if "panic" in o:
+            return f"thread {t} panicked: {o['panic']} at {o.get('at')}"
+        if o["r"].startswith("E"):
+            return f"thread {t} script failed: {o['r']} {o.get('msg', '')[:300]}"
+        if t >= nw and o["r"] != "n":
+            return f"reader {t - nw} saw a container that is not a concatenation of whole blocks: {o['r'][:400]}"
+    fc = bc["final_check"]
+    fin = run["final"]
+    elems = split_top(fin[2:-1])
+    if fc[0] == "blocks":
+        blocks = fc[1]
+        i = 0
+        while i < len(elems):
+            b = next((b for b in blocks if elems[i:i + K] == b), None)
+            if b is None:
+                return f"final list is not a concatenation of whole blocks: at {i}: {elems[max(0, i - 2):i + K + 2]}"
+            i += K
+        return None
+    if fc[0] == "mapblocks":
+        keys = [int(e.split("=")[0][1:]) for e in elems]
+        if fc[1]:
+            # cleared / sorted now and then: whole blocks in any order
+            ks = set(keys)
+            for k in keys:
+                b = k - (k % 1000000) % K
+                if any(b + j not in ks for j in range(K)):
+                    return f"final map holds part of a block only: key {k}"
+            return None
+        i = 0
+        while i < len(keys):
+            if (keys[i] % 1000000) % K != 0 or keys[i:i + K] != list(range(keys[i], keys[i] + K)):
+                return f"final map is not a concatenation of whole blocks: at {i}: {keys[max(0, i - 2):i + K + 2]}"
+            i += K
+        return None
+    if fc[0] == "sizemod":
+        return None if len(elems) % K == 0 else f"final size {len(elems)} is not a multiple of {K}"
+    if fc[0] == "constant":
+        return None if len(set(elems)) <= 1 else f"final list is not constant: {elems[:8]}.."
+    if fc[0] == "monotone":
+        vals = [int(e[1:]) for e in elems]
+        n = fc[1]
+        return None if vals in (list(range(n)), list(range(n - 1, -1, -1))) else f"final list neither ascending nor descending: {vals[:10]}.."
+    return None
 
 
 def run_bin(binp, cases, name, timeout=900):
@@ -837,6 +1115,26 @@ def run(tier, seed):
     quick = tier == "quick"
     rng = C.Rng(seed)
 
+    # ---- tie: borrows of every core-library arm, regenerated from this checkout
+    try:
+        info, _ = k2v_locks.gen_borrows(os.path.join(C.COQ, UNIT, "GenBorrows.v"), os.path.join(C.BUILD, "gen", "locks_borrows.json"))
+        chk.oblige("gen:locks-borrows (k2v_locks: borrows per arm of core_lib/list.rs, map.rs with in-loop flags)", True)
+        pinned = re.findall(r"\((\w+), \[((?:\((?:Sh|Ex), (?:true|false)\)(?:; )?)*)\]\)",
+                            open(os.path.join(C.COQ, UNIT, "LocksTable.v")).read().split("Definition pinned_borrows")[1].split("].")[0])
+        pinned = [(f, [(m, b == "true") for m, b in re.findall(r"\((Sh|Ex), (true|false)\)", body)]) for f, body in pinned]
+        got = [(r["fn"], [(m, bool(b)) for m, b in r["borrows"]]) for r in info["rows"]]
+        diffs = [f"{g[0]} ({r['add_fn']}: {r['arm'] or 'whole body'}): source has {g[1]}, pinned {p[1] if p else None}"
+                 for g, p, r in zip(got, pinned + [None] * len(got), info["rows"]) if p is None or g != p]
+        if len(pinned) != len(got):
+            diffs.append(f"{len(got)} arms extracted, {len(pinned)} pinned")
+        chk.oblige("pin:one borrow spans the whole operation (borrows of each arm, with in-loop flags, = pinned table)", not diffs,
+                   "; ".join(diffs[:4]))
+        if diffs:
+            chk.log("borrow pins differ: " + "; ".join(diffs[:6]))
+    except k2v.GenError as e:
+        chk.oblige("gen:locks-borrows", False, str(e))
+        chk.log(f"translator failed: {e}")
+
     # ---- T
     ok, log = C.coq_build(UNIT, ["LocksRun.vo"])
     model_ok = ok
@@ -976,7 +1274,7 @@ def run(tier, seed):
     chk.log(f"phase R correspondence: {__import__('time').time() - chk.t0:.1f}s since start")
     # ---- D2: atomicity stress (search only)
     hist_cases = []
-    plan = [("list", False, 1200), ("map", False, 900), ("list", True, 600), ("map", True, 400)] if quick else \
+    plan = [("list", False, 1000), ("map", False, 750), ("list", True, 500), ("map", True, 350)] if quick else \
            [("list", False, 10000), ("map", False, 8000), ("list", True, 5000), ("map", True, 3000)]
     for kind, multi, n in plan:
         for _ in range(n):
@@ -1034,6 +1332,28 @@ def run(tier, seed):
                                                  "acc_case": case, "search_only": True}))
 
     chk.log(f"phase accounting: {__import__('time').time() - chk.t0:.1f}s since start")
+    # compound operations x argument kinds: whole blocks only (search only)
+    bcs = block_cases(tier)
+    rcb, blk_out, logb = run_bin_sharded(bin_st, [b["case"] for b in bcs], "blk", 3, timeout=3000)
+    if rcb:
+        chk.log("kh_arc failed on the block cases: " + logb[-1500:])
+        chk.violation("harness", {"kind": "obligation", "correspondence": "kh_arc crashed (block cases)", "log": logb[-2000:]}, no_input=True)
+        return chk.finish("n/a")
+    torn = 0
+    for bc, out in zip(bcs, blk_out):
+        dist["blocks:" + bc["name"].split("(")[0].split(" x")[0]] = dist.get("blocks:" + bc["name"].split("(")[0].split(" x")[0], 0) + 1
+        if not out["runs"]:
+            continue
+        chk.count_case("blk:" + bc["name"], True)
+        bad = judge_block(bc, out["runs"][0])
+        if bad:
+            torn += 1
+            failures.append((50 + torn, "input", {
+                "kind": "input", "clause": "a compound container operation is atomic: readers see whole blocks only, concurrent "
+                                            "writers do not interleave (linearizable to whole operations)",
+                "block_case": bc["name"], "detail": bad, "tier": tier, "arc_case": bc["case"], "search_only": True,
+                "how_to_rerun": "./check C19 --replay <this file>  (re-runs the block case 3 times)"}))
+    chk.log(f"phase blocks: {__import__('time').time() - chk.t0:.1f}s since start")
     # hammers for the known classes
     hams = hammer_cases(tier)
     rchm, ham_out, logm = run_bin_sharded(bin_st, [dict(h[2], timeout_ms=h[2].get("timeout_ms", 60000), abort_after_deadlocks=1000) for h in hams], "ham", 1, timeout=3000)
@@ -1056,7 +1376,7 @@ def run(tier, seed):
                 if fin and fin[0][1] != case["expect_sum"]:
                     what = f"{name}: {case['expect_sum']} increments, final value {fin[0][1]}"
         if what:
-            if (cls == "C19a" and "panic" in what) or (cls == "C19b") or (cls in ("C19c", "C19d") and "deadlock" in what):
+            if (cls == "C19a" and "panic" in what) or (cls == "C19b" and "increments" in what) or (cls in ("C19c", "C19d") and "deadlock" in what):
                 exhibited.setdefault(cls, what)
             else:
                 failures.append((10 ** 6, "input", {"kind": "input", "clause": "unexpected failure mode in a hammer case",
@@ -1137,6 +1457,19 @@ def replay(path, args):
         print("both builds agree on this program")
         return 0
     bin_st, _ = C.build_harness("kh_arc", features=["arc"], target_suffix="-arc")
+    if "block_case" in data:
+        bc = next((b for b in block_cases(data.get("tier", "quick")) if b["name"] == data["block_case"]), None)
+        if bc is None:
+            print("unknown block case", data["block_case"])
+            return 2
+        _, out, _ = run_bin(bin_st, [dict(bc["case"], repeat=3)], "replay")
+        bads = [b for b in (judge_block(bc, r) for r in out[0]["runs"]) if b]
+        print(f"{bc['name']}: {len(bads)}/3 runs show a torn or interleaved block" + (f"; first: {bads[0][:500]}" if bads else ""))
+        if bads:
+            print(f"VIOLATION property={PID} replay={path}")
+            return 1
+        print("(schedule-dependent search: not reproduced this time)")
+        return 0
     if "acc_case" in data:
         case = data["acc_case"]
         _, out, _ = run_bin(bin_st, [dict({k: v for k, v in case.items() if k not in ("flavour", "expect_final")}, repeat=20)], "replay")
